@@ -468,7 +468,7 @@ package redis
 //@ func (*upstream).handleRedirection
 //@   prop C04 C11 C02
 //@   consumes req
-//@   requires u != nil && req != nil && resp != nil
+//@   requires u != nil && req != nil && resp != nil && req.body != nil && len(req.body.Array) >= 1
 //@   requires @only-called-for-moved-or-ask nfields(str(resp.Text), " ") >= 1 ==> lower(field(str(resp.Text), " ", 0)) == "moved" || lower(field(str(resp.Text), " ", 0)) == "ask"
 
 //@ func (*upstream).handleClusterDown
@@ -540,22 +540,19 @@ package redis
 //@ func (*encoder).encode
 //@   prop C10 C11
 //@   modifies nothing
-//@   requires e != nil && v != nil && e.bw != nil
+//@   requires v != nil
 
 //@ func (*encoder).encodeArray
 //@   prop C10 C11
 //@   modifies nothing
-//@   requires e != nil && e.bw != nil
 
 //@ func (*encoder).encodeBulkBytes
 //@   prop C10 C11
 //@   modifies nothing
-//@   requires e != nil && e.bw != nil
 
 //@ func (*encoder).encodeInt
 //@   prop C10 C11
 //@   modifies nothing
-//@   requires e != nil && e.bw != nil
 
 //@ func itoa
 //@   prop C10 C11
@@ -564,17 +561,14 @@ package redis
 //@ func (*encoder).encodeTextBytes
 //@   prop C10 C11
 //@   modifies nothing
-//@   requires e != nil && e.bw != nil
 
 //@ func (*encoder).encodeTextString
 //@   prop C10 C11
 //@   modifies nothing
-//@   requires e != nil && e.bw != nil
 
 //@ func (*encoder).writeCRLF
 //@   prop C10 C11
 //@   modifies nothing
-//@   requires e != nil && e.bw != nil
 
 // ---- C10: the precomputed itoa table (package init) ---------------------------------------------
 
@@ -723,10 +717,9 @@ package redis
 
 //@ func (*encoder).Encode
 //@   prop C10 C01 C02
-//@   requires e != nil && v != nil && e.bw != nil
+//@   requires v != nil
 //@   modifies e.err
 
 //@ func (*encoder).Flush
 //@   prop C10 C01 C02
-//@   requires e != nil && e.bw != nil
 //@   modifies e.err
